@@ -56,7 +56,8 @@ def serialize_funct_h5(
     binary_all = cloudpickle.dumps(
         {"fn": fn, "args": fn_args, "kwargs": fn_kwargs, "resource_dict": resource_dict}
     )
-    task_key = fn.__name__ + _get_hash(binary=binary_all)
+    # functools.partial objects and instances of classes with __call__ have no __name__
+    task_key = getattr(fn, "__name__", type(fn).__name__) + _get_hash(binary=binary_all)
     data = {
         "fn": fn,
         "args": fn_args,
